@@ -1,5 +1,22 @@
+import os
+
 from .symarray import SymArray, numpy_namespace
+
+SRC = os.path.join(os.path.dirname(os.path.dirname(os.path.abspath(__file__))), "stubs_src")
+
+STUB_SOURCES = {
+    "xdsl.ir": "xdsl_ir.py",
+    "xdsl.ir.core": "xdsl_ir.py",
+    "xdsl.irdl": "xdsl_irdl.py",
+    "xdsl.dialects.builtin": "xdsl_dialects_builtin.py",
+    "xdsl.dialects.arith": "xdsl_dialects_arith.py",
+    "xdsl.dialects.memref": "xdsl_dialects_memref.py",
+}
 
 
 def install_stubs(I):
     I.native_modules["numpy"] = numpy_namespace(I)
+    for mod, fn in STUB_SOURCES.items():
+        p = os.path.join(SRC, fn)
+        if os.path.exists(p):
+            I.stub_sources[mod] = p
